@@ -13,7 +13,15 @@ Correspondence (harness/control.cpp linking the real libompl vs drv_control):
       the Lean model re-run on the recorded draws: status, approximate flag, difference, path and the
       whole tree must be identical bit for bit; (b2) the same planner driven by scripted samplers on hand-shaped
       lattice scripts (exact ties, threshold hits, out-of-range step counts) against the model on the same line;
-  (c) PathControl::check / interpolate on planner paths and mutated paths.
+  (c) PathControl::check / interpolate on planner paths and mutated paths;
+  (d) control samplers under RECONFIGURATION (`sampler`: ControlSampler of RealVectorControlSpace and DiscreteControlSpace kept across
+      setBounds; `dsampler`: one SimpleDirectedControlSampler kept across setBounds / setMinMaxControlDuration /
+      setPropagationStepSize) against Model/ControlReconf.lean with the bit-exact RNG model; `nest`: a complete propagate /
+      propagateWhileValid call nested inside the k-th validity query / propagator call of another one on the same
+      SpaceInformation (all overloads), both results as for each call alone.
+Histories (`hist`): every planner on ONE object through solve / clear / setup and reconfigurations of the control space (bounds
+narrower / shifted / wider, both control-space kinds), the duration range and the step size; every reported path is judged against
+the system in force when it is reported.
 Spec oracle ON THE IMPLEMENTATION's output, independent of model and harness propagator: `oracle()`
 below re-propagates every reported path of all eight control planners with Python doubles (same
 arithmetic as the three systems; sin/cos/fmod are the same glibc) and checks every clause of the
@@ -1083,6 +1091,35 @@ def dsampler_oracle(line, out):
     return None
 
 
+def shrink_sampler_line(ck, hbin, ln):
+    """ddmin over the op groups of a failing `sampler` / `dsampler` line (the oracle must still fail on the real code)"""
+    t = ln.split()
+    k = t.index("ops") + 1
+    head, ops = t[:k], t[k:]
+    arity = {"S": 0, "N": 0, "R": 1, "K": 2, "M": 2, "D": 1}
+    if t[0] == "sampler":
+        arity["B"] = 2 if t[1] == "disc" else 2 * int(t[2])
+    else:
+        arity["B"] = 4
+        arity["T"] = 2 * NR[t[1]]
+    groups, i = [], 0
+    while i < len(ops):
+        n = 1 + arity.get(ops[i], 0)
+        groups.append(ops[i:i + n])
+        i += n
+
+    def fails(gs):
+        cand = " ".join(head + [x for g in gs for x in g])
+        out, rc, _ = ck.run_bin(hbin, ["control", cand])
+        return bool(out) and rc == 0 and bool(sampler_oracle(cand, out[0]) or dsampler_oracle(cand, out[0]))
+    try:
+        gs = core.ddmin(groups, fails, max_tests=120)
+    except Exception:
+        return ln
+    cand = " ".join(head + [x for g in gs for x in g])
+    return cand if fails(gs) else ln
+
+
 def gen_nest_lines(rng, nrand):
     """re-entrancy: inside the k-th validity query (hook=v) / propagator call (hook=p) of one propagate /
     propagateWhileValid call a COMPLETE second call runs on the same SpaceInformation.  Returns [(nest line, outer alone,
@@ -1339,6 +1376,11 @@ def run(ck):
                 ck.count("directed-sampler-histories:sampleTo", o.count(" T "))
                 ck.count("directed-sampler-histories:reconfigurations", ln.count(" B ") + ln.count(" M ") + ln.count(" D "))
             if rbad:
+                small = shrink_sampler_line(ck, hbin, ln)
+                if small != ln:
+                    so, _, _ = ck.run_bin(hbin, ["control", small])
+                    ln, o = small, so[0]
+                    rbad = sampler_oracle(ln, o) or dsampler_oracle(ln, o)
                 ck.report({"engine": "control", "planner": "-", "clause": "sampler-current-bounds", "what": rbad}, script=["control", ln],
                           expected="a draw depends on the control-space bounds / durations / step size at draw time", observed=[o[:2000], rbad],
                           engine="control")
@@ -1407,9 +1449,11 @@ def run(ck):
     # Syclop needs a sampleable goal (INVALID_GOAL otherwise)
         ck.count("corpus-planner-lines")
     for planner in PLANNERS:
-        for kind in ("point", "uni", "dint", "car", "ode"):
+        for kind in ("point", "uni", "dint", "car", "ode", "dpoint"):
             for envname in ("empty", "wall", "two"):
                 reps = 6 if quick else 30
+                if kind == "dpoint":      # the discrete control space (DiscreteControlSpace / DiscreteControlSampler): fewer, it is new
+                    reps = 2 if quick else 10
                 for rep in range(reps):
                     pb = std_problem(kind, r.below(8), envname, pick_goal_kind(r)) if rep % 2 == 0 else random_problem(r, kind)
                     if planner.startswith("Syclop"):
@@ -1883,6 +1927,12 @@ MANIFEST = {
             "and SteeredControlSampler, the ODESolver-based propagator and PathControl's print/copy/random methods are oracle-only: their reported paths are checked by trace conformance "
             "only — every explored run (4 systems incl. a non-additive car, 3 goal kinds incl. a plain predicate goal, box environments, seeds, evaluation budgets, k in {1,2,3,5} directed control samples) is re-propagated by an independent "
             "oracle and by the Lean spec replayOK; they are covered on the explored runs and nowhere else.",
+    "text_round10": "Round 10: control samplers under reconfiguration are inside the model (Model/ControlReconf.lean: a sampler object as a state machine over "
+                    "histories of setBounds / setMinMaxControlDuration / setPropagationStepSize / re-allocation / sample / sampleStepCount / sampleTo, both "
+                    "control-space kinds) with the theorem that every draw of every history lies within the configuration in force at draw time "
+                    "(reconf_draws_in_current_bounds, arithmetic-free from the draw contracts; reconf_sampler_inbounds instantiates the contracts at exact real "
+                    "arithmetic; reconf_cached_sampler_fails is the excluded variant), and propagateWhileValid's re-entrancy (pwv_reentrant, "
+                    "pwv_nested_both_alone, pwvShared_fails). Reconfiguration histories run for all eight planners and both control-space kinds.",
     "note": "Trusted: Lean kernel and the three standard axioms; the hand-written models outside the explored scripts; the harness's three "
             "systems and recording wrappers; the Python copy of the systems. User propagators other than the four, ODE-solver "
             "propagators and planners other than control RRT / SST / EST / KPIECE1 / PDST beyond the explored runs are not verified; the sampler bound theorem is "
@@ -1892,3 +1942,4 @@ MANIFEST = {
     "engine_kind": "Lean models + theorems (propagation core, control RRT), C++ harness linking libompl, line-protocol lock-step, "
                    "Python replay oracle over all eight control planners",
 }
+MANIFEST["text"] += " " + MANIFEST.pop("text_round10")
